@@ -514,6 +514,10 @@ def verify(con, registry, opts=None, initial=None):
                                     path=list(I.dec), detail="origin %s; recorded finding(s) %s" % (c.exc.origin, ",".join(f for f, _ in known)))
                     ob.known_ids = [f for f, _ in known]
                     I.obls.append(ob)
+                    # what must hold even on the recorded escape (e.g. the done flag is already latched)
+                    for _, sp in mine:
+                        for cl in _Guarded(I, pfx + "raises::%s::post_known::" % typ, lambda sp=sp: sp.get("post_known", [])):
+                            prove_clause(I, pfx + "raises::%s::post_known::" % typ, cl)
                 else:
                     ob = I.oblige(pfx + "raises::%s::sound" % typ, goal, detail="origin %s" % c.exc.origin, known=known)
                 for i, sp in (mine if ob.verdict == "unsat" else []):
